@@ -1,0 +1,7 @@
+//go:build !verif
+// +build !verif
+
+package eth
+
+// VerifSealHook is never set in normal builds.
+var VerifSealHook func(h *Header) (skip bool, err error)
